@@ -198,35 +198,34 @@ def shrink(payload):
 EXTRA_PROPS = ["UPVerif.Props.C06Lift", "UPVerif.Props.C06Ground", "UPVerif.Props.C06BTQR", "UPVerif.Props.C06NCR"]
 
 MANIFEST = {
-    "level_text": ("Lean 4 theorems (Props/C06.lean): a generic forward-simulation theorem over abstract transition systems "
+    "level_text": ("Lean 4 theorems. Props/C06.lean: a generic forward-simulation theorem over abstract transition systems "
                    "(soundness of plan map-back for every plan length, trace preservation), closed under composition (pipelines), "
-                   "instantiated with the declarative successor semantics of C01 (Spec/Successor.lean) for the models of "
-                   "ConditionalEffectsRemover (repaired: conflicting variants skipped, conditional forall effects expanded), "
-                   "StateInvariantsRemover (invariants added to every precondition and the goal: simulation up to viability) and "
-                   "the action split of DisjunctiveConditionsRemover; Props/C06Ground.lean: the Grounder (prune_actions False and "
-                   "True: static-fluent pruning, parameter substitution, simplification, dropped effects, naming, map-back) on ALL "
-                   "instances of lifted actions — a ground action's step is the step of the instance it maps back to, static "
-                   "fluents keep their initial value in every reachable state, soundness for every plan length and trace "
-                   "preservation, for the instance as written and for the real simulator's reading (which grounds the instance "
-                   "first) with a kernel-checked refutation of the latter without the decidable hypothesis that excludes "
-                   "finding C06-static-conflict-coinciding-values; six compiler models (these four, BoundedTypesRemover, "
-                   "QuantifiersRemover) are tied to /repo by a differential comparison of the compiled problems; for ALL ten "
-                   "compilers and six pipelines the property itself is decided on the real code by an exhaustive end-to-end "
-                   "differential (every plan of the compiled problem up to length 3/4)."),
-    "level_note": ("Partial: Props/C06Lift.lean lifts the three simulations to ALL action instances (transition system of instances, "
-                   "instantiate-then-compile against compile-then-instantiate up to truth of preconditions and fired effects) under "
-                   "decidable per-problem hypotheses (cerLiftOK / sirLiftOK / DcrLiftOK) and exactness of the walkers on the "
-                   "instances; the latter is discharged for the C11 simplifier model / C12 DNF model from their own theorems "
-                   "where the instantiated expressions are defined (WalkOK: state typing and definedness stay hypotheses). "
-                   "Still: quantifier-free invariants, DisjunctiveConditionsRemover "
-                   "without split effect conditions. The Grounder theorems (Props/C06Ground.lean) cover all instances; their remaining "
-                   "hypotheses are the exactness of the simplifier parameter on closed instances in states that agree with the "
-                   "initial state on the static fluents, and decidable checks: no forall variable vanishes in the simplification, "
-                   "dropped effects have constant / bound-variable target arguments. No theorem for BoundedTypesRemover, QuantifiersRemover, "
-                   "NegativeConditionsRemover (model or differential only), UsertypeFluentsRemover, TrajectoryConstraintsRemover, "
-                   "UndefinedInitialNumericRemover (end-to-end differential only). The simplifier / DNF walker are parameters assumed "
-                   "exact in every evaluation context (C11 / C12 prove exactness where expressions are defined). Open findings "
-                   "(unsound compilations on the unchanged tree) are listed in known_findings.json."),
+                   "instantiated with the documented successor semantics of C01 (Spec/Successor.lean) for the models of "
+                   "ConditionalEffectsRemover (repaired), StateInvariantsRemover and DisjunctiveConditionsRemover (action split "
+                   "and goal action). Props/C06Lift.lean: the same three lifted to ALL action instances, with the simplifier / DNF "
+                   "walker instantiated by the C11 / C12 models. Props/C06Ground.lean: the Grounder (both prune modes) on all "
+                   "instances: a ground action's step is the step of the instance it maps back to, static fluents keep their "
+                   "initial value, soundness and trace preservation. Props/C06BTQR.lean: BoundedTypesRemover (simulation up to "
+                   "viability through the fluent renaming), QuantifiersRemover (identity simulation where the action is strictly "
+                   "defined; definedness proved for typed problems) and the three-stage pipeline. Props/C06NCR.lean: "
+                   "NegativeConditionsRemover (complementary-fluent relation preserved by every step). Seven compiler models are "
+                   "tied to /repo by a differential comparison of the compiled problems (variants, goals, constraints, initial "
+                   "values; Grounder action by action in order; NCR also metrics and raises); the driver evaluates the decidable "
+                   "hypotheses of the BTR/QR theorems on every generated problem; for ALL ten compilers and six pipelines the "
+                   "property itself is decided on the real code by an exhaustive end-to-end differential (every plan of the "
+                   "compiled problem up to length 3/4). "),
+    "level_note": ("Partial. Lifted theorems carry decidable per-problem hypotheses (cerLiftOK, sirLiftOK, DcrLiftOK) and walker "
+                   "exactness on the instances, discharged from C11/C12 where the instantiated expressions are defined (state "
+                   "typing and definedness stay hypotheses); quantifier-free invariants; DCR without split effect conditions. "
+                   "Grounder: exactness of the simplifier parameter on closed instances in states agreeing with the initial state "
+                   "on static fluents, decidable checks (no forall variable vanishes, dropped effects have simple targets), and "
+                   "for the simulator's reading a hypothesis excluding finding C06-static-conflict-coinciding-values. BTR/QR/NCR "
+                   "theorems are for the parameterless actions: BTR with quantifier-free Always bodies; QR without Always and "
+                   "under strict definedness; NCR without negated equalities, forall effects on negated fluents, trajectory "
+                   "constraints, fluent defaults, and under a decidable hypothesis excluding finding C06-ncr-add-after-delete "
+                   "(kernel-checked refutation without it). No theorem for UsertypeFluentsRemover, TrajectoryConstraintsRemover, "
+                   "UndefinedInitialNumericRemover (end-to-end differential only). Open findings (unsound compilations on the "
+                   "unchanged tree) are listed in known_findings.json. "),
     "technique": "Lean 4 proof (simulation frame + per-compiler step lemmas) + model/code correspondence + exhaustive end-to-end differential",
     "design_ref": "DESIGN.md §5 C06/C07",
 }
